@@ -173,6 +173,7 @@ type ReplayOpts struct {
 	Wrap         bool
 	Watchdog     time.Duration
 	KeepRows     bool
+	Exclude      []string
 	PerHeight    bool
 	StepMode     bool // sync one block at a time (needed for PerHeight / restarts)
 	MaxAttempts  int
@@ -279,7 +280,7 @@ func Replay(c *forge.Chain, o ReplayOpts) (*ReplayResult, error) {
 			}
 		}
 	}
-	d, err := harness.TakeDump(n.RO, harness.DumpOptions{DropBackfill: true, KeepRows: o.KeepRows})
+	d, err := harness.TakeDump(n.RO, harness.DumpOptions{DropBackfill: true, KeepRows: o.KeepRows, Exclude: o.Exclude})
 	res.Requests += n.Fake.TotalRequests()
 	n.Stop()
 	if err != nil {
